@@ -82,17 +82,23 @@ class C18(Prop):
                 nxt = fss[fsi][2] if fsi < len(fss) else None
                 if nxt is not None:
                     doc = unhx(kv["pre"][3:])
-                    esc = b"\n".join(b"/-/-/-/" if l == b"---" else l for l in doc.split(b"\n"))
-                    want = b"\n[" + unhx(kv["test"]) + b" - 1]\n" + esc + b"\n---\n"
-                    if want not in unhx(nxt.get(main, "-")):
-                        fails.append({"msg": "obs %d: stored entry is not the document with only its --- lines escaped" % idx})
+                    # line for line the document, verbatim; only a line that is the terminator or starts with its escape
+                    # token may be stored in an escaped form (which form is the storage scheme's business, judged by the
+                    # replay below and by the correspondence with the model)
+                    from C09 import parse_entries
+                    body = dict(parse_entries(unhx(nxt.get(main, "-")))).get(unhx(kv["test"]) + b" - 1")
+                    dl = doc.split(b"\n")
+                    special = lambda l: l == b"---" or l.startswith(b"/-/-/-/")
+                    if body is None or len(body.split(b"\n")) != len(dl) or any(
+                            s_ != d_ and not special(d_) for s_, d_ in zip(body.split(b"\n"), dl)):
+                        fails.append({"msg": "obs %d: stored entry is not the document line for line (only terminator-like lines may be escaped)" % idx})
             if ob["outcome"] in ("added", "updated", "passed") and role != "replay":
                 stored[kv["test"]] = kv["pre"]
             if role == "replay" and kv["pre"].startswith("ok:") and stored.get(kv["test"]) == kv["pre"]:
                 if ob["outcome"] != "passed" or ob["errors"] != "0" or ob["writes"] != "-":
                     fails.append({"msg": "obs %d: replay of the stored document: outcome=%s" % (idx, ob["outcome"])})
             if role == "invalid":
-                if kv["pre"] == "invalid" and (ob["outcome"] != "failed:invalid" or ob["errors"] != "1" or ob["writes"] != "-"):
+                if kv["pre"] == "invalid" and (not ob["outcome"].startswith("failed") or ob["errors"] != "1" or ob["writes"] != "-"):
                     fails.append({"msg": "obs %d: invalid YAML: outcome=%s writes=%s" % (idx, ob["outcome"], ob["writes"])})
             if role == "value1":
                 value_pre = kv["pre"] if ob["outcome"] in ("added", "passed", "updated") else None
